@@ -2291,3 +2291,27 @@ V("C05", "reentrancy_guard_not_released_on_failure", "fire", "R05.p", (D, "     
 V("C05", "benign_reentrancy_guard_released_in_finally", "benign", None, (D, "            def cb(*events):\n                args = (getattr(dep.owner, dep.name) for dep in dependencies)\n                dep_kwargs = {n: getattr(dep.owner, dep.name) for n, dep in kw.items()}\n                return func(*args, **dep_kwargs)", "            active = []\n            def cb(*events):\n                active.append(events)\n                try:\n                    args = (getattr(dep.owner, dep.name) for dep in dependencies)\n                    dep_kwargs = {n: getattr(dep.owner, dep.name) for n, dep in kw.items()}\n                    return func(*args, **dep_kwargs)\n                finally:\n                    active.pop()"))
 V("C10", "argument_triggers_dropped_once_one_trigger_is_watched", "fire", "R10.d2", (R, "            for ref in resolve_ref(arg, recursive=True):\n                if ref not in ps:\n                    ps.append(ref)", "            for ref in resolve_ref(arg, recursive=True):\n                if ref in ps:\n                    continue\n                if any(isinstance(p.owner, Trigger) and p.owner.internal for p in ps) and isinstance(ref.owner, Trigger) and ref.owner.internal:\n                    continue\n                ps.append(ref)"))
 V("C04", "copy_recreates_a_shared_watcher_per_parameter", "fire", "R04.w", (Z, "            recreated = {}\n            for p, attrs in param_watchers.items():\n", "            for p, attrs in param_watchers.items():\n                recreated = {}\n"))
+# --- round m
+V("C02", "class_level_copy_made_with_fresh_watchers", "fire", "R02.j", (Z, "                parameter = copy.copy(parameter)\n                parameter.owner = mcs\n                type.__setattr__(mcs,attribute_name,parameter)", "                parameter = _instantiate_param_obj(parameter, mcs)\n                type.__setattr__(mcs,attribute_name,parameter)"))
+V("C06", "public_batch_flushed_before_the_flag_is_restored", "fire", "R06.x", (Z, "        parameterized.param._BATCH_WATCH = BATCH_WATCH\n        if not BATCH_WATCH:\n            parameterized.param._batch_call_watchers()\n\n\n@contextmanager\ndef _syncing", "        if not BATCH_WATCH:\n            parameterized.param._batch_call_watchers()\n        parameterized.param._BATCH_WATCH = BATCH_WATCH\n\n\n@contextmanager\ndef _syncing"))
+V("C06", "restorer_undoes_key_by_key", "fire", "R06.e", (Z, "            self._parameters._update(dict(self._restore, **self._refs))", "            for pname, old in dict(self._restore, **self._refs).items():\n                self._parameters._update({pname: old})"))
+V("C06", "benign_restorer_builds_the_mapping_first", "benign", None, (Z, "            self._parameters._update(dict(self._restore, **self._refs))", "            restore = dict(self._restore)\n            restore.update(self._refs)\n            self._parameters._update(restore)"))
+V("C16", "range_ends_checked_against_their_own_limit_only", "fire", "R16.v", (P, "            too_low = (vmin is not None) and not (v >= vmin if incmin else v > vmin)\n            too_high = (vmax is not None) and not (v <= vmax if incmax else v < vmax)", "            too_low = bound == 'lower' and (vmin is not None) and not (v >= vmin if incmin else v > vmin)\n            too_high = bound == 'upper' and (vmax is not None) and not (v <= vmax if incmax else v < vmax)"))
+V("C01", "label_assignment_located_by_label_position", "fire", "R01.x", (P, "                old = self._parameter.names[index]\n                idx = self.index(old)\n                super().__setitem__(idx, object)", "                idx = list(self._parameter.names).index(index)\n                super().__setitem__(idx, object)"))
+V("C11", "computed_default_always_added_to_the_objects", "fire", "R11.u", (P, "        if self.check_on_set is False and self.default is not None:\n            self._ensure_value_is_in_objects(self.default)", "        if (self.check_on_set is False or self.compute_default_fn is not None) and self.default is not None:\n            self._ensure_value_is_in_objects(self.default)"))
+V("C11", "class_hierarchy_listed_depth_first", "fire", "R11.m", (Z, "    return inspect.getmro(class_)[::-1]", "    out = []\n    for base in reversed(class_.__bases__):\n        out.extend(c for c in classlist(base) if c not in out)\n    out.append(class_)\n    return tuple(out)"))
+V("C11", "benign_class_hierarchy_from_the_mro_attribute", "benign", None, (Z, "    return inspect.getmro(class_)[::-1]", "    return tuple(reversed(class_.__mro__))"))
+V("C14", "update_skips_a_value_already_in_force", "fire", "R14.u", (Z, "                    raise ValueError(f\"{k!r} is not a parameter of {self_.cls.__name__}\")\n                setattr(self_or_cls, k, v)", "                    raise ValueError(f\"{k!r} is not a parameter of {self_.cls.__name__}\")\n                if k in restore and restore[k] is v and not self_[k].watchers:\n                    continue\n                setattr(self_or_cls, k, v)"))
+V("C18", "labels_memoised_on_container_identity", "fire", "R18.r",
+  (P, "        allow_None=None, instantiate=False, default=None,\n    )\n\n    @classmethod\n    def _modified_slots_defaults(cls):\n        defaults = super()._modified_slots_defaults()\n        defaults['objects'] = defaults.pop('_objects')\n", "        allow_None=None, instantiate=False, default=None, _memo=None,\n    )\n\n    @classmethod\n    def _modified_slots_defaults(cls):\n        defaults = super()._modified_slots_defaults()\n        defaults['objects'] = defaults.pop('_objects')\n        defaults.pop('_memo', None)\n"),
+  (P, "    __slots__ = ['_objects', 'compute_default_fn', 'check_on_set', 'names']", "    __slots__ = ['_objects', 'compute_default_fn', 'check_on_set', 'names', '_memo']"),
+  (P, "        return _named_objs(self._objects, self.names)", "        key = (id(self._objects), len(self._objects))\n        memo = self._memo\n        if memo is not None and memo[0] == key:\n            return dict(memo[1])\n        named = _named_objs(self._objects, self.names)\n        self._memo = (key, named)\n        return dict(named)"))
+V("C19", "clock_advanced_in_place", "fire", "R19.i", (P, "        self._time = self._time + self.time_type(other)\n        return self", "        self._time += self.time_type(other)\n        return self"))
+V("C19", "benign_clock_sum_in_a_temporary", "benign", None, (P, "        self._time = self._time + self.time_type(other)\n        return self", "        advanced = self._time + self.time_type(other)\n        self._time = advanced\n        return self"))
+V("C19", "class_level_read_forces_a_draw", "fire", "R19.n", (P, "        else:\n            return self._produce_value(gen)\n", "        else:\n            return self._produce_value(gen, force=obj is None)\n"))
+V("C20", "none_on_allow_none_taken_as_unset", "fire", "R20.v", (Z, "            if not onlychanged or not Comparator.is_equal(value, val.default):\n                vals.append((name, value))", "            if onlychanged and value is None and val.allow_None:\n                continue\n            if not onlychanged or not Comparator.is_equal(value, val.default):\n                vals.append((name, value))"))
+V("C20", "benign_changed_test_split_in_two", "benign", None, (Z, "            if not onlychanged or not Comparator.is_equal(value, val.default):\n                vals.append((name, value))", "            if onlychanged and Comparator.is_equal(value, val.default):\n                continue\n            vals.append((name, value))"))
+V("C01", "lazy_type_group_resolved_once", "fire", "R01.y", (U, "    def __instancecheck__(cls, inst):\n        return isinstance(inst, tuple(cls.types()))", "    def __instancecheck__(cls, inst):\n        if '_types' not in cls.__dict__:\n            type.__setattr__(cls, '_types', tuple(cls.types()))\n        return isinstance(inst, cls.__dict__['_types'])"))
+V("C01", "benign_lazy_type_group_in_a_local", "benign", None, (U, "    def __instancecheck__(cls, inst):\n        return isinstance(inst, tuple(cls.types()))", "    def __instancecheck__(cls, inst):\n        members = tuple(cls.types())\n        return isinstance(inst, members)"))
+V("C15", "calendar_date_written_with_the_iso_year", "fire", "R15.b", (P, "        return value.strftime(\"%Y-%m-%d\")\n\n    @classmethod\n    def deserialize(cls, value):\n        if value == 'null' or value is None:\n            return None\n        return dt.datetime.strptime(value, \"%Y-%m-%d\").date()", "        return value.strftime(cls._fmt)\n\n    _fmt = \"%G-%m-%d\"\n\n    @classmethod\n    def deserialize(cls, value):\n        if value == 'null' or value is None:\n            return None\n        return dt.date.fromisoformat(value)"))
+V("C15", "benign_calendar_date_format_as_a_class_constant", "benign", None, (P, "        return value.strftime(\"%Y-%m-%d\")\n\n    @classmethod\n    def deserialize(cls, value):\n        if value == 'null' or value is None:\n            return None\n        return dt.datetime.strptime(value, \"%Y-%m-%d\").date()", "        return value.strftime(cls._fmt)\n\n    _fmt = \"%Y-%m-%d\"\n\n    @classmethod\n    def deserialize(cls, value):\n        if value == 'null' or value is None:\n            return None\n        return dt.date.fromisoformat(value)"))
